@@ -383,7 +383,12 @@ class _File:
         self.pos = 0
         self.failed = False
 
+    def peek(self):
+        return self.items[self.pos] if self.pos < len(self.items) and not self.failed else None
+
     def next(self, kind):
+        if self.failed:
+            return None         # a stream whose failbit is set transfers nothing
         if self.pos >= len(self.items) or self.items[self.pos][0] != kind:
             self.failed = True
             return None
@@ -421,6 +426,33 @@ def load_symbols(idx, image_bytes, names, offsets):
             if name == 'get' and not args:
                 v = fm.next('chr')
                 return iconst(32, True, -1 if v is None else v)
+            if name == 'getline' and len(args) in (2, 3):
+                # istream::getline(char *s, count, delim): characters up to the delimiter (extracted, not stored); failbit when count-1
+                # characters were stored and the next one is not the delimiter
+                cnt = I.expr(args[1], env)
+                dl = I.expr(args[2], env) if len(args) == 3 else iconst(8, True, 10)
+                if not (isinstance(cnt, IV) and cnt.concrete() and isinstance(dl, IV) and dl.concrete()):
+                    raise AnalysisBroken('getline with a count / delimiter that is not constant at %s' % pos(n))
+                a0 = cast.strip(args[0])
+                while a0.get('kind') in ('ImplicitCastExpr', 'ParenExpr', 'CStyleCastExpr') and children(a0):
+                    a0 = cast.strip(children(a0)[0])
+                if a0.get('kind') != 'DeclRefExpr':
+                    raise AnalysisBroken('getline into something that is not a local buffer at %s' % pos(n))
+                chars = []
+                while True:
+                    nx = fm.peek()
+                    if nx is None or nx[0] != 'chr':
+                        fm.failed = True
+                        break
+                    if nx[1] == dl.lo:
+                        fm.next('chr')
+                        break
+                    if len(chars) >= cnt.lo - 1:
+                        fm.failed = True
+                        break
+                    chars.append(fm.next('chr'))
+                I.store(I.lval(a0, env), ('str', ''.join(chr(c) for c in chars)), env)
+                return None
             if name == 'read' and len(args) == 2:
                 nbytes = I.expr(args[1], env)
                 lv = target(I, args[0], env)
@@ -475,9 +507,11 @@ def rule_loader_keeps(rep, idx, rid='R8'):
     # padded to a word boundary
     def shape(n):
         return ((14 + 5 * n + 3) & ~3, ['main'] + ['p%d' % i for i in range(1, n)], [14 + 5 * i for i in range(n)])
-    cases = [shape(1), shape(3), shape(12), shape(40)]
+    long_ = shape(3)
+    long_[1][1] = 'p' + 'x' * 39             # names are as long as the programmer makes them
+    cases = [shape(1), shape(3), shape(12), shape(40), long_]
     for image, names, offs in cases:
-        key = 'image=%d:symbols=%d' % (image, len(names))
+        key = 'image=%d:symbols=%d' % (image, len(names)) + (':name of %d characters' % max(len(n_) for n_ in names) if max(len(n_) for n_ in names) > 8 else '')
         try:
             kept, mp, ub = load_symbols(idx, image, names, offs)
         except Thrown as e:
